@@ -270,7 +270,7 @@ class CacheRule(Rule):
 def cache_rules(R, lib):
     """ZoneProcessorCacheImpl::getZoneProcessor is interpreted (E-SEQ, typed; the look-up helper, the round-robin index and the
     slot array through their real bodies, the processors abstracted to the zone they are bound to) on every sequence of up
-    to four requests over SIZE + 1 different zones, for every instantiation in the library: each answer must be a slot of
+    to SIZE + 3 requests over SIZE + 1 different zones (up to renaming of the zones), for every instantiation in the library: each answer must be a slot of
     the cache that is bound to the requested zone, a zone already held by a slot must be served by that slot without any
     other slot being re-bound, and no request may read or write outside the slot array (R3, R3-find, R3-index)."""
     import itertools
@@ -299,23 +299,42 @@ def cache_rules(R, lib):
     for f in fs:
         cls = [c for c in lib.classes.get(q, []) if c.get('_inst') == f.inst]
         fields = {}
+        inits = {}
         if cls:
             for x in cls[0].get('inner', []):
                 if x.get('kind') == 'FieldDecl':
                     fields[x['name']] = nty(x)
+                    # the value the member starts with: its in-class initialiser, else zero / null
+                    ini = [y for y in x.get('inner', []) if y.get('kind') not in ('FullComment',) and 'Attr' not in y.get('kind', '')]
+                    v_ = lib.fold_node(ini[0]) if ini else None
+                    inits[x['name']] = None if '*' in (nty(x) or '') else (v_ if v_ is not None else 0)
         arr = [n for n, ty in fields.items() if ty and ty.endswith(']')]
         idx = [n for n, ty in fields.items() if ty and int_type_of(ty)]
-        if len(arr) != 1 or len(idx) != 1:
-            raise AnalysisError('%s: expected one slot array and one index in the cache, found %r / %r' % (f.loc, arr, idx))
+        if len(arr) != 1 or not idx:
+            raise AnalysisError('%s: expected one slot array and an index in the cache, found %r / %r' % (f.loc, arr, idx))
         ty = fields[arr[0]]
         size = int(ty[ty.rindex('[') + 1:-1])
         zones = ['zone%d' % k for k in range(size + 1)]
         bad = {'R3': None, 'R3-find': None, 'R3-index': None}
         n = 0
-        for length in range(1, 5):
-            for seq in itertools.product(zones, repeat=length):
+        def canonical(length, k):
+            # request sequences up to renaming of the zones (the cache only compares zones for equality): each new zone is the
+            # lowest unused one
+            def rec(prefix, used):
+                if len(prefix) == length:
+                    yield tuple(prefix)
+                    return
+                for z_ in range(min(used + 1, k)):
+                    yield from rec(prefix + [z_], max(used, z_ + 1))
+            return rec([], 0)
+        # long enough for "held, held again, evicted by SIZE other zones, asked again"
+        for length in range(1, size + 4):
+            for seq_ in canonical(length, size + 1):
+                seq = tuple(zones[i_] for i_ in seq_)
                 slots = [AObj({'zone': None, 'rebinds': 0}, oid='slot%d' % k, cls='processor') for k in range(size)]
-                cache = AObj({arr[0]: slots, idx[0]: 0}, oid='cache', cls=q, ftypes={idx[0]: int_type_of(fields[idx[0]])})
+                attrs_ = dict(inits)
+                attrs_[arr[0]] = slots
+                cache = AObj(attrs_, oid='cache', cls=q, ftypes={n_: int_type_of(ty_) for n_, ty_ in fields.items() if ty_ and int_type_of(ty_)})
                 for step, z in enumerate(seq):
                     held = [s for s in slots if s.attrs['zone'] == z]
                     before = [s.attrs['rebinds'] for s in slots]
@@ -591,7 +610,7 @@ def _written_field(e, al):
     return None
 
 
-def field_writes(lib, fn, memo, depth=0):
+def field_writes(lib, fn, memo, depth=0, follow_this=True):
     """Set of this-field names (first component) fn may write, transitively through calls on this / members
     and through local pointer/reference aliases of member storage."""
     if fn.name in memo:
@@ -620,7 +639,8 @@ def field_writes(lib, fn, memo, depth=0):
             if recv is not None:
                 kind, nm = _root(recv)
                 if kind == 'this' and nm is None and callee:
-                    out |= field_writes(lib, callee[0], memo, depth + 1)
+                    if follow_this:
+                        out |= field_writes(lib, callee[0], memo, depth + 1)
                 elif callee and not _is_const_method(callee[0]) and field_writes(lib, callee[0], memo, depth + 1):
                     w = _written_field(recv, al) if recv.k != 'var' else al.get(recv.a[0])
                     if w:
@@ -788,6 +808,62 @@ def flag_rules(R, lib, cls):
                 R.violation('R4-rebind', sz.name, loc, 'zone info is replaced but %s' % (
                     'the valid flag is not cleared' if not st[1] else 'the cached year is not reset'), detail=list(tr))
     Engine(SR()).run(sz.body)
+    writer_rule(R, lib, cls, flag, key, content, inits, sz)
+
+
+# members that are written outside init() on purpose, with the reason
+WRITER_EXCEPTIONS = {
+    ('ace_time::ExtendedZoneProcessor::resetTransitionHighWater', ('mTransitionStorage',)):
+        'calls TransitionStorage::resetHighWater(), which zeroes the usage statistic mHighWater (read only by getTransitionHighWater()); no '
+        'transition, match or answer depends on it',
+}
+
+
+def writer_rule(R, lib, cls, flag, key, content, inits, sz):
+    """R4-writers (who may write): the valid flag vouches for the cache fields only if nothing but init() - with the helpers it
+    calls -, setZoneInfo() and the constructors writes them.  A member function outside that set that assigns a mutable member
+    (a memo in a look-up, say) creates cache state the flag does not cover and a re-bind does not clear."""
+    R.rule('R4-writers', 'the mutable members of a processor are written only by init() and its helpers, setZoneInfo() and the constructors', floor=4)
+    short = cls.split('::')[-1]
+    methods = {}
+    for q, fs in lib.funcs.items():
+        if q.startswith(cls + '::') and '::' not in q[len(cls) + 2:]:
+            for f in fs:
+                if f.inst != 'primary' or all(g.inst == 'primary' for g in fs):
+                    methods.setdefault(q, f)
+
+    def callees_on_this(f):
+        out = set()
+        for e in all_exprs(f.body):
+            if e.k == 'call' and e.a[0] in methods and (e.a[1] is None or _root(e.a[1]) == ('this', None)):
+                out.add(e.a[0])
+        return out
+    allowed = set()
+    todo = [f.name for f in inits] + [sz.name] + [q for q in methods if q.split('::')[-1] == short]
+    while todo:
+        q = todo.pop()
+        if q in allowed or q not in methods:
+            continue
+        allowed.add(q)
+        todo.extend(callees_on_this(methods[q]))
+    protected = set(content) | {flag, key}
+    reset_by_both = field_writes(lib, sz, {}) & set().union(*[field_writes(lib, g, {}) for g in inits])
+    for q, f in sorted(methods.items()):
+        c = '%s:writes' % q
+        R.instance('R4-writers', c, f.loc)
+        if q in allowed:
+            continue
+        w = field_writes(lib, f, {}, 0, follow_this=False) & protected
+        # a memo that both invalidating events reset (the re-bind and the refill) is state with a discipline of its own
+        w = {m for m in w if m in (flag, key) or m not in reset_by_both}
+        if not w:
+            continue
+        exc = WRITER_EXCEPTIONS.get((q, tuple(sorted(w))))
+        if exc:
+            R.exception('R4-writers', c, exc)
+        else:
+            R.violation('R4-writers', c, f.loc, '%s writes the mutable member(s) %s but is neither init(), one of its helpers, setZoneInfo() nor a constructor: '
+                        'the valid flag says nothing about that state and a re-bind to another zone does not clear it' % (q.split('::')[-1], sorted(w)))
 
 
 def key_value_rule(R, lib, cls, f, isf, key):
@@ -1071,6 +1147,11 @@ def python_rules(cfg, R):
 
 
 SELFTEST = [
+    dict(id='lookup-memo-outside-the-flag', file='src/ace_time/ExtendedZoneProcessor.h', rule='R4-writers', edits=[
+        dict(file='src/ace_time/ExtendedZoneProcessor.h', find='      return mTransitionStorage.findTransition(epochSeconds);\n',
+             replace='      if (epochSeconds != mPrevEpochSeconds || mPrevTransition == nullptr) {\n        mPrevEpochSeconds = epochSeconds;\n        mPrevTransition = mTransitionStorage.findTransition(epochSeconds);\n      }\n      return mPrevTransition;\n'),
+        dict(file='src/ace_time/ExtendedZoneProcessor.h', find='    mutable extended::TransitionStorage<kMaxTransitions> mTransitionStorage;\n',
+             replace='    mutable extended::TransitionStorage<kMaxTransitions> mTransitionStorage;\n    mutable acetime_t mPrevEpochSeconds = LocalDate::kInvalidEpochSeconds;\n    mutable const extended::Transition* mPrevTransition = nullptr;\n')]),
     dict(id='rebind-deleted-getUtcOffset', file='src/ace_time/TimeZone.h',
          find='          mZoneProcessor->setZoneInfo(mZoneInfo);\n          return mZoneProcessor->getUtcOffset(epochSeconds);',
          replace='          return mZoneProcessor->getUtcOffset(epochSeconds);', rule='R1', construct='getUtcOffset'),
